@@ -542,6 +542,20 @@ inline Res exec_awskeys(const Args &a) {
 inline Res exec_readpass(const Args &a) {
   Res r;
   const std::string &in = a.s.empty() ? std::string() : a.s[0];
+  // A file that can be opened but not read (a directory: fopen succeeds, the first read fails with EISDIR).  Chosen by the input
+  // itself (1 case in 16) so that replays agree.
+  if ((pbt::fnv(in) & 15) == 0) {
+    char *pw0 = nullptr;
+    int rc0 = shim_readpass_file("/", &pw0);
+    if (rc0 == 0) {
+      char m0[200];
+      snprintf(m0, sizeof m0, "readpass_file on a directory (open succeeds, the first read fails) returned 0 and a %zu-byte passphrase", pw0 ? strlen(pw0) : (size_t)0);
+      r.fail("readpass-unreadable-file", m0);
+      free(pw0);
+      return r;
+    }
+    r.c("unreadable-file");
+  }
   uint8_t *ib = block(in);
   const char *path = shim_file_put(ib, in.size());
   free(ib);
